@@ -20,11 +20,12 @@
 (* of the contract; the _pinned / _pinned_reset configs are NEGATIVE: TLC  *)
 (* must report a violation of ResultOK (kept to show that the machinery    *)
 (* flags the pinned behaviour, DESIGN 8).                                  *)
-(* Thresholds of the gadget's own list/set stages are abstracted into      *)
-(* PromoteAt (number of coupons at which the gadget becomes an HLL array). *)
+(* The operators live in HllUnionMech.tla (shared with the tier-B trace    *)
+(* validation); the gadget's own list/set stages are abstracted into       *)
+(* PromoteCount(lg) (coupons at which the gadget becomes an HLL array).    *)
 (***************************************************************************)
-EXTENDS Naturals, FiniteSets, Sequences, TLC
-CONSTANTS LgMaxK, Inputs, Items, PromoteAt, FixedIsEmpty, FixedReset
+EXTENDS HllUnionMech
+CONSTANTS LgMaxK, Inputs, Items     \* (PromoteCount, FixedIsEmpty, FixedReset are constants of HllUnionMech)
 VARIABLES g,          \* the gadget
           gh          \* ghost: the contract's union state
 dvars == <<g, gh>>
@@ -32,69 +33,15 @@ dvars == <<g, gh>>
 HLL == 2
 U == INSTANCE HllUnion WITH un <- (1 :> gh), UIds <- {1}, LgMaxKs <- {LgMaxK}, UCoupons <- Items, UBigs <- {FALSE}, TrackFed <- TRUE
 
-Slots(lg) == 0..(2^lg - 1)
-Zeros(r) == Cardinality({s \in DOMAIN r : r[s] = 0})
-EmptyList(lg) == [hll |-> FALSE, cs |-> {}, lg |-> lg, reg |-> <<>>, nac |-> 0, cmin |-> 0, rb |-> FALSE]
-\* what HllSketchImpl::isEmpty() computes
-IsEmpty(x) == IF x.hll THEN x.cmin = 0 /\ x.nac = 2^x.lg /\ (FixedIsEmpty => ~x.rb) ELSE x.cs = {}
-\* implementation state of an input sketch (its own counters are exact)
-FromInput(sv) == IF sv.mode = HLL
-                 THEN [hll |-> TRUE, cs |-> {}, lg |-> sv.lgK, reg |-> sv.top, nac |-> Zeros(sv.top), cmin |-> 0, rb |-> FALSE]
-                 ELSE [hll |-> FALSE, cs |-> sv.fed, lg |-> sv.lgK, reg |-> <<>>, nac |-> 0, cmin |-> 0, rb |-> FALSE]
-
-\* Hll8Array::internalCouponUpdate on the stored (possibly stale) counters
-Upd8(x, c) == LET s == c[1] % (2^x.lg) IN
-              IF c[2] > x.reg[s] THEN [x EXCEPT !.reg[s] = c[2], !.nac = IF x.reg[s] = 0 THEN @ - 1 ELSE @] ELSE x
-RECURSIVE FoldUpd8(_, _)
-FoldUpd8(x, S) == IF S = {} THEN x ELSE LET c == CHOOSE c \in S : TRUE IN FoldUpd8(Upd8(x, c), S \ {c})
-\* promotion of a coupon-mode implementation to an HLL_8 array (replay, counters exact)
-NewArr(lg) == [hll |-> TRUE, cs |-> {}, lg |-> lg, reg |-> [s \in Slots(lg) |-> 0], nac |-> 2^lg, cmin |-> 0, rb |-> FALSE]
-\* HllSketchImpl::couponUpdate
-CouponUpd(x, c) == IF x.hll THEN Upd8(x, c)
-                   ELSE IF c \in x.cs THEN x
-                   ELSE LET cs2 == x.cs \cup {c} IN
-                        IF Cardinality(cs2) >= PromoteAt THEN FoldUpd8(NewArr(x.lg), cs2) ELSE [x EXCEPT !.cs = cs2]
-RECURSIVE FoldCoupon(_, _)
-FoldCoupon(x, S) == IF S = {} THEN x ELSE LET c == CHOOSE c \in S : TRUE IN FoldCoupon(CouponUpd(x, c), S \ {c})
-\* Hll8Array::mergeHll(src): slot & mask, max; sets the rebuild flag; counters untouched
-MergeHll(dst, src) ==
-  [dst EXCEPT !.reg = [s \in Slots(dst.lg) |->
-                         LET m == U!MaxOf({src.reg[s + j * 2^dst.lg] : j \in 0..(2^(src.lg - dst.lg) - 1)}) IN
-                         IF m > dst.reg[s] THEN m ELSE dst.reg[s]],
-              !.rb = TRUE]
-\* HllArray::copyAs(HLL_8) of an HLL_8 array: plain copy unless the rebuild flag is set (then replay: exact counters)
-CopyAs8(src) == IF src.rb THEN [src EXCEPT !.nac = Zeros(src.reg), !.cmin = 0, !.rb = FALSE] ELSE src
-\* hll_union::copy_or_downsample
-CopyOrDownsample(src, tgt) == IF src.lg <= tgt THEN CopyAs8(src) ELSE MergeHll(NewArr(tgt), src)
-\* hll_union::union_impl
-UnionImpl(dst, src) ==
-  IF ~src.hll
-  THEN IF IsEmpty(dst) /\ src.lg = dst.lg THEN src                               \* copyAs(HLL_8) of the coupon list / set
-       ELSE FoldCoupon(dst, src.cs)
-  ELSE IF ~IsEmpty(dst)
-       THEN IF ~dst.hll THEN FoldUpd8(CopyOrDownsample(src, LgMaxK), dst.cs)    \* mergeList of the old gadget
-            ELSE MergeHll(IF src.lg < dst.lg THEN CopyOrDownsample(dst, src.lg) ELSE dst, src)
-       ELSE CopyOrDownsample(src, LgMaxK)
-
 Init == g = EmptyList(LgMaxK) /\ gh = U!UFresh(LgMaxK, FALSE)
 \* update(const hll_sketch&) / update(hll_sketch&&); t8 = the argument's target type is HLL_8
 UpdateSketch(sv, rvalue, t8) ==
-  /\ IF sv.empty THEN UNCHANGED g
-     ELSE LET src == FromInput(sv) IN
-          IF rvalue /\ IsEmpty(g) /\ t8 /\ sv.lgK <= LgMaxK /\ (sv.mode = HLL \/ sv.lgK = LgMaxK)
-          THEN g' = UnionImpl(src, g)            \* the argument is adopted as gadget, then the swapped-out object is merged
-          ELSE g' = UnionImpl(g, src)
+  /\ g' = IF sv.empty THEN g ELSE GUpdate(g, FromInput(sv), rvalue, t8, LgMaxK)
   /\ gh' = IF sv.empty THEN gh
            ELSE IF sv.mode = HLL THEN U!AddHll(gh, sv) ELSE U!AddCoupons(gh, sv.fed)
 UpdateItem(c) == g' = CouponUpd(g, c) /\ gh' = U!AddCoupons(gh, {c})
-\* get_estimate / get_composite_estimate / bounds: check_rebuild_kxq_cur_min as a side effect
-GetEstimate ==
-  /\ g' = IF g.hll /\ g.rb
-          THEN LET m == U!MinOf({g.reg[s] : s \in DOMAIN g.reg}) IN
-               [g EXCEPT !.cmin = m, !.nac = Cardinality({s \in DOMAIN g.reg : g.reg[s] = m}), !.rb = FALSE]
-          ELSE g
-  /\ UNCHANGED gh
-Reset == g' = EmptyList(IF FixedReset THEN LgMaxK ELSE g.lg) /\ gh' = U!UFresh(LgMaxK, FALSE)
+GetEstimate == g' = GCheckRebuild(g) /\ UNCHANGED gh
+Reset == g' = GReset(g, LgMaxK) /\ gh' = U!UFresh(LgMaxK, FALSE)
 Next == \/ \E sv \in Inputs, rv, t8 \in BOOLEAN : UpdateSketch(sv, rv, t8)
         \/ \E c \in Items : UpdateItem(c)
         \/ GetEstimate
@@ -109,7 +56,7 @@ ResultOK == U!ResultOK(gh, Result)
 \* hll_union::is_empty()
 EmptyOK == IsEmpty(g) = gh.empty
 \* while the flag is clear the stored counters are exact (what isEmpty and the bounds rely on)
-CountersOK == (g.hll /\ ~g.rb) => LET m == U!MinOf({g.reg[s] : s \in DOMAIN g.reg}) IN
+CountersOK == (g.hll /\ ~g.rb) => LET m == GMinOf({g.reg[s] : s \in DOMAIN g.reg}) IN
                 (g.cmin = 0 /\ g.nac = Zeros(g.reg)) \/ (g.cmin > 0 /\ g.cmin <= m)
 UInvOK == U!UInv
 Refines == [][U!UNext]_dvars
